@@ -531,6 +531,94 @@ class CdcStreamHarness(CdcHarness):
         return None
 
 
+class SameDomainWrapper(Module):
+    """ClockDomainCrossing's cd_from == cd_to shortcut in a domain that is NOT "sys", next to an unrelated "sys" clock"""
+    def __init__(self, layout, buffered):
+        from litex.soc.interconnect import stream
+        self.clock_domains.cd_a = ClockDomain("a")
+        self.clock_domains.cd_sys = ClockDomain("sys")
+        self.submodules.cdc = cdc = stream.ClockDomainCrossing(layout, "a", "a", buffered=buffered)
+        self.sink, self.source = cdc.sink, cdc.source
+
+
+class SameDomainHarness(CdcStreamHarness):
+    """Producer AND consumer are register processes of domain a; base clock b only drives "sys", which the element must not use.
+    choice = (tick set, producer's next drive, consumer's next ready), both taken at an a tick."""
+
+    def __init__(self, name, factory, capacity, passthrough=False, **kw):
+        CdcStreamHarness.__init__(self, name, factory, capacity, fault=False, **kw)
+        self.passthrough = passthrough
+        self.rise = {"a": ("a",), "b": ("sys",)}
+        self.clocks = ("a", "sys")
+
+    def input_domains(self):
+        d = {x: "a" for x in _driven(self.sink.ep, True)}
+        d.update({x: "a" for x in _driven(self.source.ep, False)})
+        return d
+
+    def choices(self, env):
+        npds = self.idle_patterns + (2,)
+        out = []
+        for t, ts in CLOCKED:
+            if "a" in ts:
+                out += [(t, npd, nrd) for npd in npds for nrd in (0, 1)]
+            else:
+                out.append((t, None, None))
+        return out
+
+    def observe(self, v, env, ch):
+        nid, pd, rd, mon = env
+        t, npd, nrd = ch
+        ts = TICKSETS[t]
+        S, O = self.sink, self.source
+        in_hs = pd == 2 and v[S.ready] and "a" in ts
+        out_hs = v[O.valid] and rd and "a" in ts
+        self.hs.add((pd == 2, v[S.ready], v[O.valid], rd, t))
+        pending = self.model.pending(mon)
+        err = None
+        if self.passthrough:
+            # unbuffered shortcut = a combinational connection: the token accepted in this instant is the one handed over
+            if in_hs:
+                mon, err = self.model.offer(mon, self.token(nid))
+            if len(mon[1]) > self.maxq:
+                self.maxq = len(mon[1])
+            if out_hs and err is None:
+                mon, err = self.model.out(mon, O.read(v))
+        else:
+            if out_hs:
+                mon, err = self.model.out(mon, O.read(v))
+            if in_hs and err is None:
+                mon, err = self.model.offer(mon, self.token(nid))
+        if err is not None:
+            return env, err, 0
+        if len(mon[1]) > self.maxq:
+            self.maxq = len(mon[1])
+        nid2 = (nid + 1) % self.M if in_hs else nid
+        pd2 = pd
+        if "a" in ts and not (pd == 2 and not in_hs):
+            pd2 = npd
+        rd2 = nrd if "a" in ts else rd
+        flags = TICKFLAGS[t]
+        if pd == 2:
+            flags |= OFFER
+        if rd:
+            flags |= RDY
+        if pending:
+            flags |= PENDING
+        if in_hs:
+            flags |= INPROG | PROGRESS
+        if out_hs:
+            flags |= OUTPROG | PROGRESS
+        return (nid2, pd2, rd2, mon), None, flags
+
+    def vacuity(self):
+        if not self.n_simul:
+            return "no simultaneous-edge step"
+        if self.maxq < 1:
+            return "nothing was ever held"
+        return None
+
+
 # ---------------------------------------------------------------------------------------------------------------
 # BusSynchronizer
 # ---------------------------------------------------------------------------------------------------------------
@@ -1102,6 +1190,11 @@ def _menu():
         if not buffered:
             SENSITIVITY[nm] = [("reset pulse released as soon as each clock has risen once (reset-less synchroniser flops not yet flushed)",
                                 (lambda nm=nm, mkw=mkw, cap=cap: CdcStreamResetHarness(nm + "/short", mkw, cap, hold=(1, 0))), "dup.invented")]
+    # the cd_from == cd_to shortcut in a domain other than "sys" (an unrelated sys clock runs next to it)
+    nm = "ClockDomainCrossing(a->a,buffered=True)/next to an unrelated sys clock"
+    reg(nm, Q, lambda nm=nm: SameDomainHarness(nm, (lambda: SameDomainWrapper(_layout(2), True)), 2))
+    nm = "ClockDomainCrossing(a->a,buffered=False)/next to an unrelated sys clock"
+    reg(nm, Q, lambda nm=nm: SameDomainHarness(nm, (lambda: SameDomainWrapper(_layout(2), False)), 2, passthrough=True))
     # UART FIFO wrapper
     nm = "uart._get_uart_fifo(4,a->b)/mem=sim"
     reg(nm, Q, lambda nm=nm: CdcStreamHarness(nm, _uart_fifo, 4))
